@@ -6,7 +6,7 @@ import stat
 from . import fstree, qlib, walklib
 from .common import coq_eval, parse_nested, pmap, load_known
 
-INT_COLS = ["size", "uid", "gid", "hardlinks", "length(name)"]
+INT_COLS = ["size", "uid", "gid", "hardlinks", "length(name)", "line_count"]
 STR_COLS = ["name", "path", "ext", "dir", "mode", "lower(name)", "upper(name)"]
 # the text under which the evaluator caches a column's value (Display of the expression): a quoted literal that
 # spells it - or any column / function word - is still text
@@ -71,6 +71,14 @@ def attr(n, rel, col):
         return n["nlink"]
     if col == "length(name)":
         return len(n["name"])
+    if col == "line_count":
+        # the number of newline bytes of a regular file; other kinds have no value (None: no comparison holds... see below)
+        if n["kind"] != "file":
+            return None
+        try:
+            return open(n["path"], "rb").read().count(b"\n")
+        except OSError:
+            return None
     if col == "modified":
         return n["mtime"]
     if col == "name":
@@ -132,7 +140,7 @@ def run(ctx):
         op = rng.choice(OPS[opk])
         if kind == "int":
             col = rng.choice(INT_COLS)
-            vals = sorted({attr(n, p, col) for p, n in entries})
+            vals = sorted({attr(n, p, col) for p, n in entries} - {None})
             v = rng.choice(vals) + rng.choice([-1, 0, 0, 1]) if rng.random() < 0.8 else rng.randint(-5, 3000)
             atoms.append(dict(kind="int", col=col, opk=opk, text="%s %s %d" % (col, op, v), lit=v))
         elif kind == "unit":
@@ -146,7 +154,7 @@ def run(ctx):
             if opk not in ("eq", "ne", "eeq", "ene"):
                 continue
             col = rng.choice(STR_COLS)
-            vals = sorted({attr(n, p, col) for p, n in entries})
+            vals = sorted({attr(n, p, col) for p, n in entries} - {None})
             v = rng.choice(vals)
             r_ = rng.random()
             if r_ < 0.2:
@@ -177,7 +185,7 @@ def run(ctx):
                 atoms.append(dict(kind="date", col="modified", opk=opk, text="modified %s '%04d-%02d-%02d %02d:%02d:%02d'" % (op, y, mo, d, H, M, S), lit=(a0, a0)))
         elif kind == "between":
             col = rng.choice(INT_COLS)
-            vals = sorted({attr(n, p, col) for p, n in entries})
+            vals = sorted({attr(n, p, col) for p, n in entries} - {None})
             a, b = sorted([rng.choice(vals) - rng.choice([0, 0, 0, 1, 7]), rng.choice(vals)])
             neg = rng.random() < 0.3
             atoms.append(dict(kind="between", col=col, opk="between", text="%s %sbetween %d and %d" % (col, "not " if neg else "", a, b), lit=(a, b, neg)))
@@ -186,7 +194,9 @@ def run(ctx):
             atoms.append(dict(kind="colcol", col=c1, opk=opk, text="%s %s %s" % (c1, op, c2), lit=c2))
 
     def one(a):
-        rows, r = qlib.select(ctx.impl, "path", "from w where " + a["text"], cwd=ctx.scratch)
+        # a content column on a FIFO blocks (recorded finding F47): the FIFO of the tree is kept out by a guard that short-circuits
+        guard = "is_pipe = false and " if "line_count" in a["text"] else ""
+        rows, r = qlib.select(ctx.impl, "path", "from w where " + guard + a["text"], cwd=ctx.scratch)
         return a, rows, r
 
     res = pmap(one, atoms)
@@ -195,6 +205,7 @@ def run(ctx):
     for a in atoms:
         if a["kind"] == "int":
             xs = [attr(n, p, a["col"]) for p, n in entries]
+            xs = [0 if x is None else x for x in xs]       # undefined attributes: the model verdict is ignored below (mgot is intersected)
             exprs.append("ints %d (%d) %s" % (OPK[a["opk"]], a["lit"], "[" + ";".join("(%d)" % x for x in xs) + "]"))
         elif a["kind"] == "bool":
             xs = [1 if attr(n, p, a["col"]) else 0 for p, n in entries]
@@ -210,7 +221,11 @@ def run(ctx):
             continue
         got = {x[0] for x in rows}
         exp = set()
+        undefined = {p for p, n in entries if attr(n, p, a["col"]) is None}       # entries that do not have the attribute (line_count of a directory): not judged
+        got -= undefined
         for p, n in entries:
+            if p in undefined:
+                continue
             x = attr(n, p, a["col"])
             if a["kind"] == "date":
                 lo, hi = a["lit"]
@@ -231,7 +246,7 @@ def run(ctx):
             continue
         mv = parse_nested(mt)
         if a["kind"] in ("int", "bool") and isinstance(mv, list) and mv:
-            mgot = {p for (p, n), v in zip(entries, mv) if v}
+            mgot = {p for (p, n), v in zip(entries, mv) if v} - undefined
             if mgot != got:
                 ctx.violation("correspondence-mismatch", "binary and regenerated comparison table disagree on `%s`" % a["text"], input=case, observed=sorted(got)[:10], model=sorted(mgot)[:10],
                               concrete=False, correspondence="binary WHERE vs gen.CmpGen tables")
